@@ -369,10 +369,11 @@ impl rustc_driver::Callbacks for Cb {
                 negative = matches!(h.polarity, ty::ImplPolarity::Negative);
             }
             let items: Vec<String> = tcx.associated_item_def_ids(did).iter().map(|d| esc(&tcx.item_name(*d).to_string())).collect();
+            let preds: Vec<String> = tcx.predicates_of(did).predicates.iter().map(|(c, _)| esc(&format!("{:?}", c))).collect();
             if !first_impl { out.push_str(",\n"); }
             first_impl = false;
-            let _ = write!(out, "{{\"path\":{},\"trait\":{},\"self_ty\":{},\"self_adt\":{},\"derived\":{},\"unsafe\":{},\"negative\":{},\"items\":[{}],\"span\":{}}}",
-                esc(&tcx.def_path_str(did)), esc(&tr), esc(&format!("{}", self_ty)), esc(&self_adt), tcx.is_automatically_derived(did), is_unsafe, negative, items.join(","),
+            let _ = write!(out, "{{\"path\":{},\"trait\":{},\"self_ty\":{},\"self_adt\":{},\"derived\":{},\"unsafe\":{},\"negative\":{},\"items\":[{}],\"preds\":[{}],\"span\":{}}}",
+                esc(&tcx.def_path_str(did)), esc(&tr), esc(&format!("{}", self_ty)), esc(&self_adt), tcx.is_automatically_derived(did), is_unsafe, negative, items.join(","), preds.join(","),
                 esc(&{ let sm = tcx.sess.source_map(); let lo = sm.lookup_char_pos(tcx.def_span(did).lo()); format!("{}:{}", lo.file.name.prefer_local_unconditionally(), lo.line) }));
         }
         out.push_str("\n],\"statics\":[");
